@@ -263,7 +263,7 @@ func c04Sign(c *core.Ctx, r *gen.Rand) (m *stun.Message, key []byte, ok bool) {
 func c04(c *core.Ctx) {
 	selfCheckOracles()
 	// (a) hand-made messages: the iff against the oracle
-	c.Section("crafted", c.N(20000, 400000), func(_ int64, r *gen.Rand) {
+	c.Section("crafted", c.N(20000, 4000000), func(_ int64, r *gen.Rand) {
 		key := c04Key(r)
 		wire, variant := c04Craft(r, key)
 		c.Count("variant."+variant, 1)
@@ -274,7 +274,7 @@ func c04(c *core.Ctx) {
 		}
 	})
 	// (b) library-signed messages: verify, wrong keys, appended bytes
-	c.Section("signed", c.N(4000, 100000), func(_ int64, r *gen.Rand) {
+	c.Section("signed", c.N(4000, 1000000), func(_ int64, r *gen.Rand) {
 		m, key, ok := c04Sign(c, r)
 		if !ok {
 			return
@@ -297,7 +297,7 @@ func c04(c *core.Ctx) {
 		}
 	})
 	// (b2) one key buffer rewritten in place between uses (the pooled HMAC must not remember keys by reference)
-	c.Section("key-buffer-reuse", c.N(300, 10000), func(_ int64, r *gen.Rand) {
+	c.Section("key-buffer-reuse", c.N(300, 100000), func(_ int64, r *gen.Rand) {
 		buf := r.Bytes(r.PickInt([]int{8, 16, 16, 20, 64, 80}))
 		mi := stun.MessageIntegrity(buf)
 		for round := 0; round < 6; round++ {
@@ -337,7 +337,7 @@ func c04(c *core.Ctx) {
 		c.Distinct(r.U64())
 	})
 	// (c) every single-bit flip of signed messages
-	c.Section("bitflips", c.N(50, 2000), func(_ int64, r *gen.Rand) {
+	c.Section("bitflips", c.N(50, 20000), func(_ int64, r *gen.Rand) {
 		m, key, ok := c04Sign(c, r)
 		if !ok {
 			return
